@@ -58,6 +58,29 @@ def install():
             raise HarnessError(f"seam missing: _synchronization.{name}")
 
 
+def _install_assign_hook():
+    """Observe the pool handing a connection to a request (PoolRequest.assign_to_connection)
+    from outside; if a refactoring renames the method the hook simply never fires."""
+    import httpcore._async.connection_pool as ap
+    import httpcore._sync.connection_pool as sp
+
+    for mod, name in ((ap, "AsyncPoolRequest"), (sp, "PoolRequest")):
+        cls = getattr(mod, name, None)
+        orig = getattr(cls, "assign_to_connection", None)
+        if orig is None or getattr(orig, "_sim_wrapped", False):
+            continue
+
+        def assign_to_connection(self, connection, _orig=orig):
+            _orig(self, connection)
+            w = _WORLD
+            cb = getattr(w, "on_assign", None) if w is not None else None
+            if cb is not None:
+                cb(self, connection)
+
+        assign_to_connection._sim_wrapped = True
+        cls.assign_to_connection = assign_to_connection
+
+
 def _cheap_frame_repr():
     # h2 computes repr(frame) eagerly for a trace log call that goes nowhere; DATA
     # frame reprs hex-dump the payload.  Logging only: no behaviour depends on it.
@@ -79,3 +102,4 @@ def world():
 
 
 install()
+_install_assign_hook()
